@@ -15,7 +15,7 @@ ERROR awkward_RegularArray_getitem_next_array_advanced(
   int64_t size) {
   for (int64_t i = 0;  i < length;  i++) {
     tocarry[i] = i*size + fromarray[fromadvanced[i]];
-    toadvanced[i] = i;
+    toadvanced[i] = fromadvanced[i];
   }
   return success();
 }
